@@ -156,4 +156,81 @@ example :
     (deleteByPk pk rows ⟨.int 2, false⟩).remaining = [[.int 1, .int 10], [.int 3, .int 30]] ∧
     (deleteByPk pk rows ⟨.int 9, true⟩).count = 0 := by decide
 
+/-! ### further laws of DELETE / UPDATE -/
+
+/-- after `DELETE … WHERE p` no remaining row satisfies `p`: the same DELETE again removes
+nothing, and `SELECT … WHERE p` is empty -/
+theorem C09_delete_idempotent (p : Row → TV) (rows : List Row) :
+    let d := deleteWhere p rows
+    filter3 p d.remaining = [] ∧
+    (deleteWhere p d.remaining).count = 0 ∧
+    (deleteWhere p d.remaining).remaining = d.remaining := by
+  have h : ∀ r ∈ rows.filter (fun r => !sel p r), sel p r = false := by
+    intro r hr; simpa using (List.mem_filter.mp hr).2
+  have hempty : (rows.filter (fun r => !sel p r)).filter (sel p) = [] := by
+    rw [List.filter_eq_nil_iff]; intro r hr; simp [h r hr]
+  refine ⟨?_, ?_, ?_⟩
+  · simp only [deleteWhere, filter3]; exact hempty
+  · simp [deleteWhere, hempty]
+  · simp only [deleteWhere]
+    rw [List.filter_eq_self]
+    intro r hr; simp [h r hr]
+
+/-- the reported count and the table sizes add up -/
+theorem C09_delete_sizes (p : Row → TV) (rows : List Row) :
+    (deleteWhere p rows).count + (deleteWhere p rows).remaining.length = rows.length := by
+  have := (C09_delete p rows).2.2.1.length_eq
+  simpa [deleteWhere, List.length_append] using this
+
+/-- any list of assignments to distinct columns: each assigned column gets its right-hand side
+evaluated on the OLD row, every other column keeps its old value -/
+theorem C09_assignments_general (as : List (Nat × (Row → Value))) (old : Row)
+    (hnd : (as.map (·.1)).Nodup) (hin : ∀ a ∈ as, a.1 < old.length) :
+    (∀ a ∈ as, (applyAssignments as old)[a.1]? = some (a.2 old)) ∧
+    (∀ j, j ∉ as.map (·.1) → (applyAssignments as old)[j]? = old[j]?) ∧
+    (applyAssignments as old).length = old.length := by
+  unfold applyAssignments
+  -- generalise the accumulator: it has old's length, already-written columns are listed in `done`
+  have gen : ∀ (as : List (Nat × (Row → Value))) (acc : Row), acc.length = old.length →
+      (as.map (·.1)).Nodup → (∀ a ∈ as, a.1 < old.length) →
+      let res := as.foldl (fun acc a => acc.set a.1 (a.2 old)) acc
+      res.length = old.length ∧
+      (∀ a ∈ as, res[a.1]? = some (a.2 old)) ∧
+      (∀ j, j ∉ as.map (·.1) → res[j]? = acc[j]?) := by
+    intro as
+    induction as with
+    | nil => intro acc hl _ _; exact ⟨hl, by simp, by simp⟩
+    | cons a rest ih =>
+      intro acc hl hnd hin
+      have hnd' : (rest.map (·.1)).Nodup := (List.nodup_cons.mp hnd).2
+      have hnotin : a.1 ∉ rest.map (·.1) := (List.nodup_cons.mp hnd).1
+      have ha : a.1 < old.length := hin a List.mem_cons_self
+      have hl' : (acc.set a.1 (a.2 old)).length = old.length := by simp [hl]
+      obtain ⟨h1, h2, h3⟩ := ih (acc.set a.1 (a.2 old)) hl' hnd' (fun b hb => hin b (List.mem_cons_of_mem _ hb))
+      refine ⟨h1, ?_, ?_⟩
+      · intro b hb
+        rcases List.mem_cons.mp hb with rfl | hb
+        · simp only [List.foldl_cons]
+          rw [h3 b.1 hnotin]
+          simp [List.getElem?_set, hl, ha]
+        · exact h2 b hb
+      · intro j hj
+        simp only [List.map_cons, List.mem_cons, not_or] at hj
+        simp only [List.foldl_cons]
+        rw [h3 j hj.2]
+        simp [List.getElem?_set, Ne.symm hj.1]
+  obtain ⟨h1, h2, h3⟩ := gen as old rfl hnd hin
+  exact ⟨h2, h3, h1⟩
+
+/-- UPDATE never changes the number of rows, and the reported count never exceeds it -/
+theorem C09_update_sizes (p : Row → TV) (as : List (Nat × (Row → Value))) (rows : List Row) :
+    (updateWhere p as rows).rows.length = rows.length ∧ (updateWhere p as rows).count ≤ rows.length := by
+  refine ⟨by simp [updateWhere], ?_⟩
+  simp only [updateWhere]
+  exact List.length_filter_le _ _
+
+/-- non-vacuity: three assignments, one reading a column another one writes -/
+example : applyAssignments [(0, fun r => (r[2]?).getD .null), (2, fun _ => .int 9), (1, fun r => (r[0]?).getD .null)]
+    [.int 1, .int 2, .int 3] = [.int 3, .int 1, .int 9] := by decide
+
 end VibeProof.C09
